@@ -57,7 +57,9 @@ RefList(c, rules) == Join([i \in 1..Len(c.refs) |-> RuleId(rules[c.refs[i]])], <
 Search(c, rules, alone, B, map) ==
     LET items == Concat([i \in 1..Len(c.refs) |->
                     LET k == c.refs[i] sq == SubQueries(alone, k, B.optin) IN
-                    [j \in 1..Len(sq) |-> [id |-> RuleId(rules[k]), q |-> sq[j], n |-> Normalization(c, k, map)]]])
+                    \* (a renaming conditioned on the log source renames the alias targets of exactly the rules it applies to)
+                    [j \in 1..Len(sq) |-> [id |-> RuleId(rules[k]), q |-> sq[j],
+                                            n |-> Normalization(c, k, IF B.pipe = "rename_win" /\ k # 1 THEN <<>> ELSE map)]]])
     IN  IF Len(c.refs) = 1 /\ Len(items) = 1
         THEN T_SINGLE \o GS \o items[1].id \o GS \o items[1].q \o GS \o items[1].n     \* tagged with its name or id as well
         ELSE T_MULTI \o US \o Join([i \in 1..Len(items) |-> items[i].id \o GS \o items[i].q \o GS \o items[i].n], US)
